@@ -72,11 +72,11 @@ func (op Cmpv) Op_instruction_verilog_state_machine(conf *Config, arch *Arch, rg
 			result += tabs(tabsNum+2) + "end\n"
 			result += tabs(tabsNum+1) + "end\n"
 		}
+		result += tabs(tabsNum+1) + "endcase\n"
 	} else {
 		result += tabs(tabsNum+1) + "$display(\"NOP\");\n"
 	}
 
-	result += tabs(tabsNum+1) + "endcase\n"
 	result += NextInstruction(conf, arch, 6, "_pc + 1'b1")
 	result += tabs(tabsNum) + "end\n"
 	return result
